@@ -145,6 +145,23 @@ func accessorModeAgainstSpec(c *Case, res *spec.Result, st *Stats) string {
 	return ""
 }
 
+// errorUsableAsValue: the documented error types are plain comparable values (callers compare
+// them, collect them in maps); an error that drags an arbitrary document value along panics there.
+func errorUsableAsValue(err error) (msg string) {
+	defer func() {
+		if r := recover(); r != nil {
+			msg = fmt.Sprintf("the returned error %T cannot be used as a value (comparing it / using it as a map key panics: %v)", err, r)
+		}
+	}()
+	seen := map[error]int{}
+	seen[err]++
+	other := err
+	if other != err {
+		return fmt.Sprintf("the returned error %T is not equal to itself", err)
+	}
+	return ""
+}
+
 func checkC20(c *Case, st *Stats) string {
 	docText := c.Doc.JSON()
 	Journal(c.Check, c.Path, docText, flagString(c))
@@ -184,6 +201,9 @@ func checkC20(c *Case, st *Stats) string {
 			return fmt.Sprintf("not a documented runtime error: %T %v", lib.err, lib.err)
 		}
 		if msg := matchRuntimeError(res, info, c.Texts); msg != "" {
+			return msg
+		}
+		if msg := errorUsableAsValue(lib.err); msg != "" {
 			return msg
 		}
 		st.Class("outcome:" + info.Type)
